@@ -136,7 +136,7 @@ def plan(tier):
     if tier == "quick":
         cfg = [(S7, 5, 2), (S4, 7, 2)]
     else:
-        cfg = [(S7, 6, 3), (S4, 9, 2)]
+        cfg = [(S7, 6, 2), (S4, 8, 2), (S7, 4, 4)]
     for cls in ("Paragraph", "Header", "Span"):
         for alpha, maxlen, maxpart in cfg:
             for L in range(0, maxlen + 1):
